@@ -15,7 +15,7 @@ import re
 import subprocess
 import os
 
-from .. import runcheck, problems, swrap
+from .. import monitors, runcheck, problems, swrap
 from ..common import LEAN, write_if_changed
 
 
@@ -103,6 +103,16 @@ def run(ctx):
                 p["runs"] = 3
                 p["reseed"] = 1
                 ps2.append(p)
+        # preconditioned objectives (CCSAQ), minimised and maximised: the wrapper installed around the user's preconditioner for
+        # the duration of a maximising call must be gone afterwards (the second run on the same object would wrap it again)
+        for rep in range(12 if ctx.thorough else 4):
+            p = problems.gen_problem(rng, A, alg_name="NLOPT_LD_CCSAQ", with_constraints=(rep % 2 == 1), box="finite", maxeval=rng.choice([15, 40]), allow_max=False)
+            if rep % 4 < 3:
+                p["max"] = 1
+            p["pre"] = 1
+            p["runs"] = 2
+            p["reseed"] = 1
+            ps2.append(p)
         lines = [problems.to_line(p) for p in ps2]
         runs, _ = swrap.run_specs(bdir, lines)
         firsts = [r for r in runs if getattr(r, "part", 1) == 1]
@@ -113,6 +123,18 @@ def run(ctx):
                 seconds[id(runs[i - 1])] = r
             elif getattr(r, "part", 1) == 3 and i >= 2:
                 thirds.append((runs[i - 2], r))
+        for r in firsts:
+            if not r.R:
+                continue                # the first run itself did not complete: not a statement about repeated runs (C03 / C10)
+            ri1 = monitors.RunInfo(r, A)
+            v = mon_settings(ri1) if r.post else None
+            if v:
+                ctx.violation(v[0], v[1], {"stream": "run", "spec": r.spec})
+            if r.status != "ok" and id(r) not in seconds:
+                # the first run returned, the process died in a later run on the same object
+                ctx.violation({"alg": ri1.name, "cause": "a later run on the same object crashed or hung after a first run that returned"},
+                              "%s: first run returned %s, then %s in a following run on the same object" % (ri1.name, r.R.get("ret"), r.status),
+                              {"stream": "run", "spec": r.spec})
         pa = [r for r in firsts if id(r) in seconds]
         pb = [seconds[id(r)] for r in pa]
         runcheck.compare_pairs(ctx, pa, pb, same, "twice on the same object", {"cause": "second run on the same object differs"})
@@ -124,7 +146,6 @@ def run(ctx):
         # every return path includes the out-of-memory exits of nlopt_optimize itself: the k-th allocation made inside the call
         # fails (malloc interposed), for maximization / memoized / dimension-eliminated / nested configurations
         from ..common import build_harness
-        from .. import monitors
         exe, ok, log = build_harness("run_oom", bdir, extra=["-fno-builtin", "-Wl,--wrap=malloc,--wrap=calloc,--wrap=realloc"])
         if not ok:
             ctx.broke("harness run_oom.c does not build", log)
